@@ -12,6 +12,7 @@
 import Qfx.Spec.SessionTyped
 import Qfx.Spec.SessionTypedC02
 import Qfx.Spec.SessionTypedC08
+import Qfx.Spec.Validate
 namespace Qfx.SessSpec
 open Qfx Qfx.Sess
 
@@ -46,10 +47,16 @@ inductive Op
   | rtime (now : Int)
   deriving Inhabited
 
+/-- what the generator says about the validity of an inbound message (C15's vocabulary): `conforming`, or the single defect
+    it planted and the tag it touched; absent = the generator makes no claim -/
+abbrev Plant := Option (Qfx.Validate.Kind × Nat)
+
 structure Event where
   op : Op
   items : List Item
   after : After
+  /-- the annotation of the inbound message of an `in` / `arrive` op -/
+  plant : Plant := none
   deriving Inhabited
 
 /-! ## helpers -/
@@ -78,8 +85,12 @@ structure HeaderView where
   possDup : Option Bool -- none = absent or garbled
   possDupGarbled : Bool
   verdict : Bool        -- scripted callback would reject
+  validOK : Bool        -- the configured validator certainly accepts (as far as the generator's claim goes)
 
-def viewOf (cfg : Cfg) (m : InMsg) : HeaderView :=
+/-- `plant`: the generator's claim about the message (`plantOf`).  With a dictionary configured only a message claimed
+    `conforming` is known to pass validation; without one (and without a claim) the absence of empty values decides, as the
+    messages the generator does not annotate keep header, body and trailer fields in order. -/
+def viewOf (cfg : Cfg) (m : InMsg) (plant : Plant := none) : HeaderView :=
   let t := getTime m 52
   { beginOK := fget m.f 8 == some (bsName cfg.bs)
     sndOK := fget m.f 49 == some cfg.target
@@ -92,10 +103,13 @@ def viewOf (cfg : Cfg) (m : InMsg) : HeaderView :=
     noEmpty := m.f.all (fun p => !p.2.isEmpty)
     possDup := match getBool m 43 with | .val b => some b | _ => none
     possDupGarbled := match getBool m 43 with | .garbled => true | _ => false
-    verdict := (callbackVerdict m).isSome }
+    verdict := (callbackVerdict m).isSome
+    validOK := match plant with
+      | some (k, _) => k == .conforming
+      | none => cfg.validator.app.isNone }
 
 def HeaderView.clean (v : HeaderView) : Bool :=
-  v.beginOK && v.sndOK && v.tgtOK && v.timeOK && v.seq.isSome && v.noEmpty && !v.possDupGarbled && !v.verdict
+  v.beginOK && v.sndOK && v.tgtOK && v.timeOK && v.seq.isSome && v.noEmpty && v.validOK && !v.possDupGarbled && !v.verdict
 
 /-- kinds whose MsgSeqNum is checked against the expected number before anything else happens (C04's reading) -/
 def gatedKind (m : InMsg) : Bool :=
@@ -137,6 +151,7 @@ structure M where
   fromLogonGap : Bool := false
   hb : Int := 0
   inbox : List InMsg := []
+  inboxP : List Plant := []          -- C06: the generator's annotations of the buffered messages (parallel to `inbox`)
   -- C03: what has been handed to the store in this epoch: seq, kind, resendable, payload id
   stored : List (Int × String × Bool × Option String) := []
   lastSendPayload : String := ""
@@ -151,6 +166,13 @@ def opName : Op → String
 def inboundOf (ms : M) : Op → Option InMsg
   | .msgIn m => some m
   | .pop => ms.inbox.head?
+  | _ => none
+
+/-- the annotation of the inbound message this event processed first -/
+def plantOf (ms : M) (e : Event) : Plant :=
+  match e.op with
+  | .msgIn _ => e.plant
+  | .pop => ms.inboxP.head?.join
   | _ => none
 
 /-- an observed item as the model's typed observation (what the theorems' monitors consume) -/
@@ -208,7 +230,7 @@ def c01 (ms : M) (e : Event) : List String × Int × Option Int :=
     | _ => none).head? == some true
   let badAdv := match inboundOf ms e.op with
     | some m =>
-      let v := viewOf ms.cfg m
+      let v := viewOf ms.cfg m (plantOf ms e)
       (match v.seq with
        | some n =>
          -- (a message the engine rejects, or answers with a Logout, is consumed with its number whatever it is; those
@@ -269,7 +291,7 @@ def c04 (ms : M) (e : Event) : List String :=
     else
       match inb with
       | some m =>
-        (match (viewOf cfg m).seq with
+        (match (viewOf cfg m (plantOf ms e)).seq with
          | some n =>
            if prev.st == "InSession" || prev.st == "Pending:InSession" || prev.st == "Logon" then
              if b7 != some t || !(n > t) then ["C04.request_wrong_begin"]
@@ -281,7 +303,7 @@ def c04 (ms : M) (e : Event) : List String :=
   -- (b) the early message is kept
   let badKeep : List String := match inb with
     | some m =>
-      let v := viewOf cfg m
+      let v := viewOf cfg m (plantOf ms e)
       (match v.seq with
        | some n =>
          if v.clean && gatedKind m && n > ms.T && stLoggedOn prev.st && inRecovery e.after.st
@@ -305,14 +327,34 @@ def c04 (ms : M) (e : Event) : List String :=
 def reversePairs : List (Nat × Nat) := [(50, 57), (57, 50), (142, 143), (143, 142), (115, 128), (128, 115), (116, 129), (129, 116)]
 def reversePairs41 : List (Nat × Nat) := [(144, 145), (145, 144)]
 
+/-- Does C15 demand that the configured validator rejects a message into which defect `k` was planted at tag `t`?
+    With a dictionary this is the declarative `Qfx.Validate.checks` (which settings switch the check for `k` off); without
+    one the validator is `validateFieldContent` alone: empty values and section order, under their two settings. -/
+def validationDemanded (v : VCfg) (k : Qfx.Validate.Kind) (t : Nat) : Bool :=
+  if v.app.isSome then Qfx.Validate.checks k t v.settings
+  else match k with
+    | .emptyValue => v.settings.checkHaveValues
+    | .sectionOrder => v.settings.checkOrder
+    | _ => false
+
+/-- is the Reject `f` (35=3) an allowed identification of defect `k` at `t` (C15's `expected`), as far as the BeginString
+    lets a Reject say it: from FIX.4.2 on 371 (RefTagID) and 373 (SessionRejectReason, left out by FIX.4.2 above 11) -/
+def rejectNames (cfg : Cfg) (k : Qfx.Validate.Kind) (t : Nat) (f : Fields) : Bool :=
+  if cfg.bs < 2 then true else
+  let ref : Option Nat := (fget f 371).bind (·.toNat?)
+  match (fget f 373).bind (·.toNat?) with
+  | some r => Qfx.Validate.expected k t ⟨r, ref⟩
+  | none => cfg.bs == 2 && [12, 13, 14, 15, 16, 17].any fun r => Qfx.Validate.expected k t ⟨r, ref⟩
+
 def c06 (ms : M) (e : Event) : List String :=
   let cfg := ms.cfg
   let prev := ms.prev
   match inboundOf ms e.op with
   | none => []
   | some m =>
-    if !stLoggedOn prev.st then [] else
-    let v := viewOf cfg m
+    if !(stLoggedOn prev.st || prev.st == "Logon") then [] else
+    let loggedOn := stLoggedOn prev.st
+    let v := viewOf cfg m (plantOf ms e)
     let k := kindOf m
     let mySeq := (fget m.f 34).getD "-"
     -- callbacks about THIS message: its own callback precedes everything the message itself causes (its Reject, its advance
@@ -327,13 +369,46 @@ def c06 (ms : M) (e : Event) : List String :=
       | .fromAdmin kk s => kk != "A" && s == mySeq && kk == k
       | .onLogon => k == "A"
       | _ => false
+    -- validation precedes every callback, FromAdmin of a Logon included
+    let reachedV := reached || own.any fun i => match i with
+      | .fromAdmin kk s => kk == "A" && k == "A" && s == mySeq
+      | _ => false
     let replay := prev.st == "Resend" || (cfg.lookThroughPending && prev.st == "Pending:Resend")
+    let vs := cfg.validator.settings
+    let plant := plantOf ms e
+    -- the validator spec (C15) evaluated on what the generator planted, under the configured settings
+    let demanded : Option (Qfx.Validate.Kind × Nat) := match plant with
+      | some (pk, pt) => if validationDemanded cfg.validator pk pt then some (pk, pt) else none
+      | none => none
+    let emptyChecked := vs.checkHaveValues || (cfg.validator.app.isSome && vs.rejectInvalid)
     let gate : List String :=
-      if !reached then [] else
+      (if !(reached && loggedOn) then [] else
         (if !v.beginOK then ["C06.gate_bypassed{check=beginstring}"] else [])
         ++ (if !(v.sndOK && v.tgtOK) then ["C06.gate_bypassed{check=compid}"] else [])
-        ++ (if !(cfg.skipLatency || replay || v.timeOK) then ["C06.gate_bypassed{check=sendingtime}"] else [])
-        ++ (if !v.noEmpty then ["C06.gate_bypassed{check=validation}"] else [])
+        ++ (if !(cfg.skipLatency || replay || v.timeOK) then ["C06.gate_bypassed{check=sendingtime}"] else []))
+      ++ (if reachedV && ((!v.noEmpty && emptyChecked) || demanded.isSome) then ["C06.gate_bypassed{check=validation}"] else [])
+    -- validation: a message that gets as far as the validator (session-level header in order, its number the expected one
+    -- where the number is checked first; a SequenceReset with an unreadable GapFillFlag is refused before) …
+    let headerOK := v.beginOK && v.sndOK && v.tgtOK && (cfg.skipLatency || replay || v.timeOK) && v.seq.isSome && !v.possDupGarbled
+    let gf := fget m.f 123
+    let atValidator := headerOK && (if gatedKind m then v.seq == some prev.T else true)
+      && (k != "4" || gf == none || gf == some "Y" || gf == some "N")
+    -- … and conforms, or carries a defect whose check the configured settings switch off (RejectInvalidMessage=N,
+    -- AllowUnknownMsgFields=Y, ValidateUserDefinedFields=N, ValidateFieldsOutOfOrder=N, ValidateFieldsHaveValues=N; no
+    -- dictionary to check against), is not rejected by validation: it reaches its callback (a Logon of a FIXT session
+    -- without DefaultApplVerID is refused before)
+    let acceptable : Option String := match plant with
+      | none => none
+      | some (pk, _) =>
+        if !atValidator then none
+        else if pk == .conforming then some "C06.validation_rejects_conforming"
+        else if demanded.isNone then some ("C06.validation_rejects_tolerated{defect=" ++ pk.name ++ "}")
+        else none
+    let badAccept : List String := match acceptable with
+      | none => []
+      | some c => if k == "A" && cfg.bs == 5 && (fget m.f 1137).isNone then [] else if reachedV then [] else [c]
+    -- (before the handshake only a Logon is looked at)
+    if !loggedOn then gate ++ (if k == "A" then badAccept else []) else
     -- reactions, judged in plain InSession state for directly handed messages whose only defect is the one named
     let ws := wires (dropOldWires prev.q e.items)
     let kinds := ws.map (·.1)
@@ -372,6 +447,19 @@ def c06 (ms : M) (e : Event) : List String :=
       else if v.beginOK && v.sndOK && v.tgtOK && (cfg.skipLatency || v.timeOK) && v.seq.isNone && fget m.f 34 != some "" then
         (if kinds == ["3"] && rejTag "34" then [] else ["C06.reaction_wrong{defect=field34}"])
       else []
+    -- … and carries a defect the validator spec rejects under the configured settings is answered with a Reject naming the
+    -- planted (reason, tag) where C15 fixes them, and consumes its sequence number (a Logon is answered with a Logout)
+    let validation : List String :=
+      match plant with
+      | none => []
+      | some (pk, pt) =>
+        if !atValidator || demanded.isNone || k == "A" then []
+        else
+          (match ws.head? with
+           | some ("3", _, f) =>
+             (if rejectNames cfg pk pt f then [] else ["C06.validation_reject_misnamed{defect=" ++ pk.name ++ "}"])
+             ++ (if e.after.T ≥ prev.T + 1 || e.items.contains (.store ["reset"]) then [] else ["C06.validation_reject_not_consumed"])
+           | _ => ["C06.validation_not_rejected{defect=" ++ pk.name ++ "}"])
     -- shape of Rejects that answer this message
     -- (a replayed Reject — 43=Y — answers an older message; while a message with the same number waits in the stash a Reject
     --  quoting that number may answer the stashed one, drained within this event: not judged)
@@ -391,7 +479,7 @@ def c06 (ms : M) (e : Event) : List String :=
                | none => (fget f dst).isNone)
              && fget f 49 == some cfg.sender && fget f 56 == some cfg.target
           then [] else ["C06.reject_routing_not_reversed"]
-    gate ++ react ++ shape
+    gate ++ react ++ badAccept ++ validation ++ shape
 
 /-! ## C07: resets only when agreed; forward-only SequenceReset; reset Logon numbering -/
 
@@ -442,7 +530,7 @@ def c07 (ms : M) (e : Event) : List String :=
   -- the echo of our own reset Logon must not reset again (anchor `sentReset`)
   let badEchoReset := match inb with
     | some m =>
-      if kindOf m == "A" && fget m.f 141 == some "Y" && ms.ourResetPending && accepted0 && (viewOf cfg m).clean && !resets.isEmpty
+      if kindOf m == "A" && fget m.f 141 == some "Y" && ms.ourResetPending && accepted0 && (viewOf cfg m (plantOf ms e)).clean && !resets.isEmpty
          && !(cfg.resetOnLogon && !cfg.initiator) && stLoggedOn prev.st      -- (before the handshake a Logon is a request)
       then ["C07.echo_of_own_reset_resets_again{role=" ++ (if cfg.initiator then "initiator" else "acceptor") ++ "}"] else []
     | none => []
@@ -451,7 +539,7 @@ def c07 (ms : M) (e : Event) : List String :=
   let badEcho := match inb with
     | some m =>
       -- (not when the Logon is the peer's answer to our own reset Logon in an established session: nothing is replied then)
-      if kindOf m == "A" && fget m.f 141 == some "Y" && accepted && !cfg.initiator && (viewOf cfg m).clean
+      if kindOf m == "A" && fget m.f 141 == some "Y" && accepted && !cfg.initiator && (viewOf cfg m (plantOf ms e)).clean
          && !(ms.ourResetPending && stLoggedOn prev.st) then
         (match (wires e.items).find? (fun w => w.1 == "A") with
          | some (_, s, f) => if s == "1" && fget f 141 == some "Y" then [] else ["C07.reset_logon_reply_wrong"]
@@ -461,7 +549,7 @@ def c07 (ms : M) (e : Event) : List String :=
   -- a received reset Logon that is not the echo of ours resets both counters
   let badHonour := match inb with
     | some m =>
-      if kindOf m == "A" && fget m.f 141 == some "Y" && accepted && (viewOf cfg m).clean && !ms.sentResetOnConn
+      if kindOf m == "A" && fget m.f 141 == some "Y" && accepted && (viewOf cfg m (plantOf ms e)).clean && !ms.sentResetOnConn
          && !(wires e.items).any (fun w => w.1 == "A" && fget w.2.2 141 == some "Y" && cfg.initiator) then
         (if resets.isEmpty then ["C07.reset_logon_not_honoured"] else [])
       else []
@@ -472,8 +560,8 @@ def c07 (ms : M) (e : Event) : List String :=
     | _ => []
   let badSeqReset := match e.op, inb with
     | .msgIn _, some m =>
-      let v := viewOf cfg m
-      if kindOf m == "4" && v.beginOK && v.sndOK && v.tgtOK && (cfg.skipLatency || v.timeOK || inRecovery prev.st) && v.noEmpty && !v.verdict
+      let v := viewOf cfg m (plantOf ms e)
+      if kindOf m == "4" && v.beginOK && v.sndOK && v.tgtOK && (cfg.skipLatency || v.timeOK || inRecovery prev.st) && v.noEmpty && v.validOK && !v.verdict
          && prev.st == "InSession" && fget m.f 123 != some "Y" && (fget m.f 123 == none || fget m.f 123 == some "N") then
         (match (fget m.f 36).bind numeric? with
          | some n =>
@@ -492,7 +580,7 @@ def c07 (ms : M) (e : Event) : List String :=
   -- ResetOnLogout / ResetOnDisconnect return both counters to 1 exactly at logout / disconnect, whatever they were
   let badLogoutReset := match e.op, inb with
     | .msgIn _, some m =>
-      if cfg.resetOnLogout && kindOf m == "5" && (viewOf cfg m).clean && (stLoggedOn prev.st || prev.st == "Logout")
+      if cfg.resetOnLogout && kindOf m == "5" && (viewOf cfg m (plantOf ms e)).clean && (stLoggedOn prev.st || prev.st == "Logout")
          && (resets.isEmpty || e.after.S != 1 || e.after.T != 1) then ["C07.reset_on_logout_missing"] else []
     | _, _ => []
   let badDiscReset :=
@@ -565,7 +653,7 @@ def c20 (ms : M) (e : Event) (hbAfter : Int) : List String :=
     match inboundOf ms op with
     | none => []
     | some m =>
-      let v := viewOf cfg m
+      let v := viewOf cfg m (plantOf ms e)
       let arm := if stConnected prev.st && e.after.status == "ok" then
                    (if armed (1200 * hbAfter) then [] else ["C20.peer_timer_not_rearmed_on_receive"]) else []
       let cancel := if isPending prev.st && isPending e.after.st then ["C20.pending_not_cancelled_by_inbound"] else []
@@ -597,8 +685,8 @@ def c03 (ms : M) (e : Event) : List String :=
   let prev := ms.prev
   match e.op, inboundOf ms e.op with
   | .msgIn _, some m =>
-    let v := viewOf cfg m
-    if kindOf m != "2" || !stLoggedOn prev.st || !(v.beginOK && v.sndOK && v.tgtOK && v.noEmpty && !v.verdict)
+    let v := viewOf cfg m (plantOf ms e)
+    if kindOf m != "2" || !stLoggedOn prev.st || !(v.beginOK && v.sndOK && v.tgtOK && v.noEmpty && v.validOK && !v.verdict)
        || !(cfg.skipLatency || v.timeOK || prev.st == "Resend") then [] else
     match (fget m.f 7).bind numeric?, (fget m.f 16).bind numeric? with
     | some b, some e16 =>
@@ -693,6 +781,11 @@ def monitorStep (ms : M) (e : Event) : M × List String :=
       | .pop => ms.inbox.drop 1
       | _ => ms.inbox
     let inbox' := if e.after.ib == 0 then [] else inbox'
+    let inboxP' := match e.op with
+      | .arrive _ => if e.after.status == "ok" then ms.inboxP ++ [e.plant] else ms.inboxP
+      | .pop => ms.inboxP.drop 1
+      | _ => ms.inboxP
+    let inboxP' := if e.after.ib == 0 then [] else inboxP'
     let ms' : M := { ms with
       prev := e.after, T := t', S := e.after.S, last := last', expectInc := false, g1 := g1', g2 := g2', g8 := g8',
       connOpen := s08.connOpen, wiresOnConn := s08.wiresOnConn, sentLogout := s08.sentLogout, handshake := s08.handshake,
@@ -715,7 +808,7 @@ def monitorStep (ms : M) (e : Event) : M × List String :=
          else ms.ourResetPending),
       fromLogonGap := if ms.prev.st == "Logon" && inRecovery e.after.st then true
                       else if !inRecovery e.after.st then false else ms.fromLogonGap,
-      hb := hb', inbox := inbox', stored := storedAfter ms e }
+      hb := hb', inbox := inbox', inboxP := inboxP', stored := storedAfter ms e }
     (ms', panic ++ b01 ++ b02 ++ b03 ++ b04 ++ b06 ++ b07 ++ s08.bad ++ b08t ++ b20)
 
 end Qfx.SessSpec
